@@ -18,10 +18,10 @@ func init() {
 			ruleC19U1(r)
 			ruleC19U2(r)
 			ruleC19U3(r)
-			ruleC19U4(r)
+			le := newLockEngine(r.P)
+			ruleC19U4(r, le)
 			ruleFreshPerSend(r, "U5", "/transport/", "/wire", "/iscp", "/internal/")
 			ruleNoSwallowedErrors(r, "U6", 3, true, "/transport/multi")
-			le := newLockEngine(r.P)
 			ruleCloseNotBehindIO(r, le, "U7")
 			r.borrow("C09", func() { rulePublishedFrozen(r, "A5") })
 			ruleLockPairingFor(r, le, "U8", "a scheduler event never leaves the selection mutex held: every function of package transport/multi that takes a lock releases it on every path (an ignored event must not make the next Write hang)", func(fn *ssa.Function) bool {
@@ -436,7 +436,7 @@ func ruleC19U3(r *Run) {
 	r.Stat("nil_comparisons_of_paths", nChecks)
 }
 
-func ruleC19U4(r *Run) {
+func ruleC19U4(r *Run, le *LockEngine) {
 	r.Begin("U4", "merge queue: the read loop starts one goroutine per member (a go statement inside the range over transportMap) that reads from that member and posts to the single readResCh; Read takes only from readResCh; Write uses the member selected by currentTransportID under the read lock", 3)
 	p := r.P
 	rl := r.method(muPkg, "Transport", "readLoop")
@@ -553,6 +553,100 @@ func ruleC19U4(r *Run) {
 					if hasLeaf(p.Leaves(lk.Index, provOpts{}), "field:"+muPkg+".Transport.currentTransportID") {
 						ok = true
 					}
+				}
+			}
+		}
+		if !ok {
+			// or the write is a function literal run by a helper that hands it the selected member
+			// (onCurrent(m, func(cur transport.Transport) error { return cur.Write(bs) })): the argument at the helper's
+			// invocation is transportMap[currentTransportID]
+			for _, cl := range wr.AnonFuncs {
+				for _, c := range findCalls(cl, false, "/transport.Transport.Write", "/transport.Writer.Write", "/transport.ReadWriter.Write") {
+					prm, isP := canonVal(instrCall(c).Value).(*ssa.Parameter)
+					if !isP || prm.Parent() != cl {
+						continue
+					}
+					idx := -1
+					for i, q := range cl.Params {
+						if q == prm {
+							idx = i
+						}
+					}
+					allInstrs(wr, func(ins ssa.Instruction) {
+						call, isCall := ins.(*ssa.Call)
+						if !isCall {
+							return
+						}
+						for _, ic := range invokedClosureArgs(p, &call.Call) {
+							if ic.closure != cl {
+								continue
+							}
+							for _, site := range ic.sites {
+								args := instrCall(site).Args
+								if idx < 0 || idx >= len(args) {
+									continue
+								}
+								if lk, isL := canonVal(args[idx]).(*ssa.Lookup); isL && hasLeaf(p.Leaves(lk.X, provOpts{}), "field:"+muPkg+".Transport.transportMap") &&
+									hasLeaf(p.Leaves(lk.Index, provOpts{}), "field:"+muPkg+".Transport.currentTransportID") {
+									ok = true
+								}
+							}
+						}
+					})
+				}
+			}
+		}
+		if !ok {
+			// or to a copy of the selection kept in a field of the transport: the field is loaded with the transport's
+			// mutex held, and every store into it is a member (an element of a transport map) stored under that mutex
+			// in write mode, or into an object under construction
+			for _, c := range findCalls(wr, false, "/transport.Transport.Write", "/transport.Writer.Write", "/transport.ReadWriter.Write") {
+				ld, isU := canonVal(instrCall(c).Value).(*ssa.UnOp)
+				if !isU || ld.Op != token.MUL {
+					continue
+				}
+				fk := fieldKeyOfAddr(ld.X)
+				if !strings.HasPrefix(fk, muPkg+".Transport.") {
+					continue
+				}
+				heldAtLoad := false
+				for k := range le.HeldAt(ld) {
+					if strings.HasSuffix(k, ".mu") {
+						heldAtLoad = true
+					}
+				}
+				if !heldAtLoad {
+					continue
+				}
+				stores, good := 0, true
+				for _, g := range p.Funcs {
+					if fnPkgPath(g) != modPath+muPkg {
+						continue
+					}
+					for _, st := range storesIn(g, fk) {
+						stores++
+						member := false
+						for _, l := range p.Leaves(st.Val, provOpts{}) {
+							if strings.HasPrefix(l, "elem:"+muPkg+".") && strings.Contains(l, "ransportMap") {
+								member = true
+							}
+						}
+						locked := false
+						for k, m := range le.HeldAt(st) {
+							if strings.HasSuffix(k, ".mu") && m == modeW {
+								locked = true
+							}
+						}
+						if fa, isFA := st.Addr.(*ssa.FieldAddr); isFA && isLocalObject(pathOf(fa.X)) {
+							locked = true
+						}
+						if !member || !locked {
+							good = false
+						}
+					}
+				}
+				if stores > 0 && good {
+					ok = true
 				}
 			}
 		}
